@@ -75,7 +75,7 @@ def _(self: Ref['mqtt.client.pubsubs.MQTTProtocol'], response: Ref['mqtt.pdu.PUB
     ensures(implies(hit, req.deferred.d_fired and req.deferred.d_ok and req.deferred.d_val == id
                     and is_int(al.t_status) and al.t_status == 1))
     # nothing is written except first transmissions released by the freed slot
-    ensures(implies(not hit, out(self) == old(out(self))))
+    ensures(implies(not hit, out(self) == old(out(self)) and no_new_fired()))
     ensures(len(W(self)) <= old(len(W(self))) or len(W(self)) <= self._window)
     ensures(dq_len(Q(self)) == 0 or not hit or (is_int(dq_at(Q(self), dq_head(Q(self))).msgId) and len(W(self)) >= self._window))
 
@@ -103,6 +103,7 @@ def _(self: Ref['mqtt.client.pubsubs.MQTTProtocol'], response: Ref['mqtt.pdu.PUB
     ensures(ping_untouched_by_handler(self))
     # PUBREL is written only in answer to a PUBREC for an identifier in flight, and then exactly one
     ensures(implies(not hit, out(self) == old(out(self)) and R(self) == old(R(self))))
+    ensures(no_new_fired())
     ensures(implies(hit, out(self) == old(out(self)) + lb(sPUBREL(id))))
     # the exchange moves from the publish window to the release window, carrying the unfired Deferred
     ensures(implies(hit, not contains(W(self), id) and contains(R(self), id)
@@ -134,8 +135,10 @@ def _(self: Ref['mqtt.client.pubsubs.MQTTProtocol'], response: Ref['mqtt.pdu.PUB
     ensures(ping_untouched_by_handler(self))
     ensures(implies(hit, not contains(R(self), id) and rep.deferred.d_fired and rep.deferred.d_ok and rep.deferred.d_val == id
                     and is_int(al.t_status) and al.t_status == 1))
-    ensures(implies(not hit, out(self) == old(out(self))))
+    ensures(implies(not hit, out(self) == old(out(self)) and no_new_fired()))
     ensures(len(W(self)) <= old(len(W(self))) or len(W(self)) <= self._window)
+    # the slot freed in the release window lets held-back messages go: nothing that could be sent is left waiting
+    ensures(dq_len(Q(self)) == 0 or not hit or (is_int(dq_at(Q(self), dq_head(Q(self))).msgId) and len(W(self)) >= self._window))
 
 
 @contract('mqtt.client.pubsubs.MQTTProtocol.handlePUBCOMP', name='foreign-id', callsite=False, props=['C05', 'C09', 'C16'])
